@@ -67,6 +67,11 @@ CHECKS = {
             "DUTs: AXILiteSRAM, AXILite2Wishbone, Wishbone2AXILite, AXILite2CSR, AXILiteDownConverter/UpConverter/Converter (ratios 2/4/8, widths 8..128), base-address offsets, word/byte Wishbone addressing. The master agent drives the five channels from independent generated schedules (AW/W skew incl. W first, up to K outstanding per direction, B/R back-pressure, garbage on idle channels) and serialises only dependent operations; the slave agent pre-asserts or withholds ready, queues up to Q requests, answers in order with schedule-driven latency and SLVERR ranges. Oracle: every read equals the flat memory, slave memory equals the model at the end, one response per request, errors propagate where the bridge has an error path, every valid/payload the DUT drives is held until ready (both sides), Wishbone requests stable until ack.",
             "Trusted: Migen's simulator, harness agents. Known findings excluded by construction and replayed: AXILiteUpConverter lane selection with two reads in flight / W before AW. AXI4-full bridges (AXI2AXILite, AXILite2AXI, AXI2Wishbone, Wishbone2AXI) and AHB2Wishbone are not yet covered by this check.",
             "DESIGN.md section 4 / C09"),
+    "C08": ("exploration",
+            "property-based testing (Hypothesis): routing / exactly-once / in-order oracle from five-channel handshake logs plus per-slave memory scoreboards, with independent-channel master agents and multi-accept slave agents",
+            "AXILiteArbiter, AXILiteDecoder, AXILiteInterconnectShared, AXILiteCrossbar and point-to-point, 1..3 x 1..3, disjoint maps decoded by the real SoCRegion.decoder. Masters issue programs through five independently scheduled channels (AW before/with W, B/R back-pressure, garbage while idle; several outstanding through the arbiter alone), slaves pre-assert or withhold ready, queue up to Q requests, answer with schedule-driven latency. Checked: each accepted write (address, data, strobe) and read address appears at exactly one slave - the one decoding it; each response reaches the issuing master exactly once, in order, with the right data; no stray responses; all masters are served; hold rule on every DUT-driven channel; final slave memories equal the model.",
+            "Trusted: Migen's simulator, harness agents. Known findings excluded by construction and replayed: AXILiteDecoder with more than one outstanding request per direction, and W before AW. The AXI4 twins (AXIArbiter/AXIDecoder/AXIInterconnectShared/AXICrossbar) share the structure but are not yet exercised.",
+            "DESIGN.md section 4 / C08"),
 }
 
 NOT_YET = {}
